@@ -60,4 +60,26 @@ theorem waiting_job_eventually_launched {fl : Flags} (hg : fl.readyGuarded = tru
     ((evs.foldl (St.apply fl) s).jobs j).failedDep = true :=
   XpmVerif.C06.every_job_eventually_launched hg hf ha hr h hnd hfit evs hrun hmax j hj hs
 
+/-! ### the hypotheses of `waiting_job_eventually_launched` are satisfiable (audit round 8, item 6)
+    the workload of `C06.exTok`: one token of capacity 3, two jobs asking 2 each (the second start is aborted once and the
+    job waits for the token); `s` = the state after the two submissions and `wait`, `evs` = the rest of the schedule. -/
+
+example : XpmVerif.SchedFinal.flOK.readyGuarded = true ∧ XpmVerif.SchedFinal.flOK.resubmitRegisters = true
+    ∧ XpmVerif.SchedFinal.flOK.abortRechecks = true ∧ XpmVerif.SchedFinal.flOK.abortReleases = true := by decide
+example : XpmVerif.SchedFinal.Reachable XpmVerif.SchedFinal.flOK [3]
+    (XpmVerif.SchedFinal.runEvs XpmVerif.SchedFinal.flOK [3] (XpmVerif.C06.exTok.take 3)) :=
+  XpmVerif.SchedFinal.reachable_runEvs _ (by decide)
+example : XpmVerif.SchedFinal.NoDoubleTok (XpmVerif.SchedFinal.runEvs XpmVerif.SchedFinal.flOK [3] (XpmVerif.C06.exTok.take 3)) :=
+  XpmVerif.SchedFinal.noDoubleTok_runEvs rfl [3] _ (by decide) (by decide)
+example : XpmVerif.SchedFinal.TokFit (XpmVerif.SchedFinal.runEvs XpmVerif.SchedFinal.flOK [3] (XpmVerif.C06.exTok.take 3)) :=
+  XpmVerif.SchedFinal.tokFit_runEvs XpmVerif.SchedFinal.flOK [3] _ (by decide)
+example : XpmVerif.SchedFinal.RunOK XpmVerif.SchedFinal.flOK
+    (XpmVerif.SchedFinal.runEvs XpmVerif.SchedFinal.flOK [3] (XpmVerif.C06.exTok.take 3)) (XpmVerif.C06.exTok.drop 3) :=
+  XpmVerif.SchedFinal.runOK_of_b XpmVerif.SchedFinal.flOK _ _ (by decide)
+/-- … and the conclusion is not trivially true there: both jobs are scheduled, the second one had an aborted start on the way,
+    and at the end each was launched exactly once. -/
+example : ((XpmVerif.SchedFinal.runEvs XpmVerif.SchedFinal.flOK [3] (XpmVerif.C06.exTok.take 10)).jobs 1).pc = .lockExitAbort
+    ∧ ((XpmVerif.SchedFinal.runEvs XpmVerif.SchedFinal.flOK [3] XpmVerif.C06.exTok).jobs 0).launches = 1
+    ∧ ((XpmVerif.SchedFinal.runEvs XpmVerif.SchedFinal.flOK [3] XpmVerif.C06.exTok).jobs 1).launches = 1 := by decide
+
 end XpmVerif.C09
